@@ -51,7 +51,17 @@ fn check_values(xs: &[i64], obs: &mut Obs, cross: bool) -> Verdict {
 }
 
 /// Differential check of the decoder on an arbitrary string.
+/// Other parts of the crate use the VLQ reader on the same thread: every fourth text is parsed right
+/// after a map was decoded (and one was refused) there - the answers must not depend on that.
+fn neighbours(t: &str) {
+    if t.len() % 4 == 0 {
+        let _ = sourcemap::decode_slice(br#"{"version":3,"sources":["a.js"],"names":["n"],"mappings":"AAAA,IAAEA;AACA"}"#);
+        let _ = sourcemap::decode_slice(br#"{"version":3,"sources":["a.js"],"names":[],"mappings":"AAAA,IAAg"}"#);
+    }
+}
+
 fn check_text(t: &str, obs: &mut Obs) -> Verdict {
+    neighbours(t);
     let reference = rv::read(t);
     let got = match guard(|| parse_vlq_segment(t)) {
         Ok(r) => r,
